@@ -351,6 +351,8 @@ def main():
     if PROPS[a.pid].get("custom"):
         import importlib
         mod = importlib.import_module(PROPS[a.pid]["custom"])
+        if a.replay:
+            return mod.replay_cmd(a.replay)
         return mod.check(a.pid, a.tier, a.seed)
     if a.replay:
         build(sorted(set(s["binary"] for s in PROPS[a.pid]["subs"])))
